@@ -12,7 +12,7 @@ pub static DEF: CheckDef = CheckDef {
     id: "C12",
     run,
     replay,
-    rule: "for each supported cartridge type (0x00, 0x01-0x03, 0x11-0x13) x ROM size code (0-8, 0x52-0x54) x RAM size code (0-5): (a) the complete product of controller register values (MBC1: 32 x 4 x 2, MBC3: 128 x 16, each value written at several addresses of its register's range), (b) proptest histories of up to 40 (address < 0x8000, value) writes biased to the register-range edges and to the values 0, 1, 0x1F, 0x20, 0x21, 0x3F, 0x40, 0x60, 0x7F, 0x80, 0xFF. After every write the bank visible at 0x0000, at 0x4000-0x7FFF (ROM banks carry their index) and at 0xA000-0xBFFF (RAM banks carry theirs) is compared with the reference controller model. Non-trivial = history that selects value 0, a multiple of 0x20, mode 1 or a bank beyond the ROM size; distinct by hash of (configuration, history).",
+    rule: "for each supported cartridge type (0x00, 0x01-0x03, 0x11-0x13) x ROM size code (0-8, 0x52-0x54) x RAM size code (0-5): (a) the complete product of controller register values (MBC1: 32 x 4 x 2, MBC3: 128 x 16, each value written at several addresses of its register's range), (b) proptest histories of up to 40 (address < 0x8000, value) writes biased to the register-range edges and to the values 0, 1, 0x1F, 0x20, 0x21, 0x3F, 0x40, 0x60, 0x7F, 0x80, 0xFF. After every write the bank visible at 0x0000, at 0x4000-0x7FFF (ROM banks carry their index; through data reads and through the instruction-fetch view) and at 0xA000-0xBFFF (RAM banks carry theirs) is compared with the reference controller model. Non-trivial = history that selects value 0, a multiple of 0x20, mode 1 or a bank beyond the ROM size; distinct by hash of (configuration, history).",
     assumptions: &[
         "models::mbc (register protocol from the controller documentation); set-valued where documentation differs: MBC1 mode 1 may or may not apply the upper bits at 0x4000-0x7FFF",
         "RAM enable is not asserted; RAM contents are only asserted for RAM sizes of at least one 8 KiB bank; MBC3 RTC register selections (0x4000-0x5FFF value >= 4) suspend the RAM-bank assertion",
@@ -90,6 +90,25 @@ pub fn probe(c: &mut Cart) -> Result<(), (String, String)> {
                     vis, vis_end, want, c.model.rom_low, c.model.upper, c.model.mode as u8, c.banks
                 ),
             ));
+        }
+    }
+    // instruction fetch must see the same bank as data reads (the fetch view has its own bank arithmetic)
+    {
+        let p = &c.m.core.memory as *const gbint::mem::MemoryAreas;
+        let fetched = guarded(|| {
+            let s = gbint::mem::get_executable_memory_slice(0x4000, p);
+            (s[0], s[1], s.len())
+        });
+        match fetched {
+            Err(msg) => {
+                return Err(("fetch-view-panic".into(), format!("instruction fetch at 0x4000 panicked with registers low={:#x} upper={} mode={} on a {}-bank ROM: {}", c.model.rom_low, c.model.upper, c.model.mode as u8, c.banks, msg)));
+            }
+            Ok((b0, b1, len)) => {
+                let fb = b0 as usize | ((b1 ^ 0xa5) as usize) << 8;
+                if fb != vis || len != 0x4000 {
+                    return Err(("fetch-view-bank".into(), format!("instruction fetch at 0x4000 sees bank {} ({} bytes), data reads see bank {} (registers: low={:#x} upper={} mode={}, {} banks)", fb, len, vis, c.model.rom_low, c.model.upper, c.model.mode as u8, c.banks)));
+                }
+            }
         }
     }
     if let Some(rb) = c.model.ram_bank() {
